@@ -1,0 +1,16 @@
+//go:build verif
+// +build verif
+
+package utility
+
+import "time"
+
+// Verification hook (build tag verif only, add-only): moves the node clock GetTime() reads, so that a
+// harness can let the proposer's casting budget expire at a chosen point of a block execution.
+// Nothing in the node calls these.
+
+// VerifAdvanceClock adds d to the offset GetTime() applies to the system clock.
+func VerifAdvanceClock(d time.Duration) { timeOffset += d }
+
+// VerifResetClock sets the offset back to zero.
+func VerifResetClock() { timeOffset = 0 }
